@@ -1843,6 +1843,9 @@ class tensor:
                [3, 4]])
         """
         vector = parse_one_d(vector)
+        # The same vector multiplies several modes: they must all be of its length
+        if any(size != vector.shape[0] for size in self.shape):
+            assert False, "All modes must be of the length of the vector in ttsv"
         # Only two simple cases are supported
         if skip_dim is None:
             exclude_dims = None
